@@ -34,6 +34,34 @@ pub struct PropSpec {
     pub rule: &'static str,
 }
 
+/// Generates a case of `prop` and applies the property-independent swarm choices: in a quarter
+/// of the whole-system cases one or two models get synchronous inputs (`fn` instead of
+/// `async fn`; their handlers keep the operations that never suspend).
+pub fn gen_case(prop: &PropSpec, rng: &mut Rng, thorough: bool) -> Case {
+    let mut case = (prop.gen)(rng, thorough);
+    if case.comp.is_none() && !case.nodes.is_empty() && rng.pct(25) {
+        for _ in 0..(1 + rng.below(2)) {
+            let i = rng.usize(case.nodes.len());
+            case.nodes[i].make_sync();
+        }
+    }
+    case
+}
+
+/// Variants of a case; a variant that added suspending operations to the handlers of a node with
+/// synchronous inputs turns that node back into one with `async` inputs.
+pub fn gen_variants(prop: &PropSpec, base: &Case, thorough: bool) -> Vec<Case> {
+    let mut v = (prop.variants)(base, thorough);
+    for c in v.iter_mut() {
+        for n in c.nodes.iter_mut() {
+            if n.sync_inputs && n.on.iter().flatten().any(|o| !o.is_sync()) {
+                n.sync_inputs = false;
+            }
+        }
+    }
+    v
+}
+
 /// Data shared by the executions of one generated case.
 #[derive(Default)]
 pub struct Group {
@@ -225,8 +253,8 @@ impl Explorer {
         self.ci = ci;
         self.case_seed = mix(self.prop_seed, ci);
         let mut rng = Rng::new(self.case_seed);
-        let base = (self.prop.gen)(&mut rng, self.thorough);
-        self.variants = (self.prop.variants)(&base, self.thorough).into_iter().map(Arc::new).collect();
+        let base = gen_case(self.prop, &mut rng, self.thorough);
+        self.variants = gen_variants(self.prop, &base, self.thorough).into_iter().map(Arc::new).collect();
         self.vi = 0;
         self.k = 0;
         self.group = Group::default();
@@ -371,8 +399,8 @@ pub fn explore_part(
 pub fn regenerate(prop: &'static PropSpec, seed: u64, thorough: bool, ci: u64, vi: usize, k: u32, pilot: u32) -> Option<(Case, SchedSpec, u64)> {
     let case_seed = mix(mix(seed, str_hash(prop.id)), ci);
     let mut rng = Rng::new(case_seed);
-    let base = (prop.gen)(&mut rng, thorough);
-    let variants = (prop.variants)(&base, thorough);
+    let base = gen_case(prop, &mut rng, thorough);
+    let variants = gen_variants(prop, &base, thorough);
     let case = variants.into_iter().nth(vi)?;
     let stc = is_single_schedule(&case);
     let spec = portfolio(mix(case_seed, vi as u64), k, pilot, stc);
